@@ -94,8 +94,8 @@ class Replayer:
     offset = scale * r.choice([0, 0, 3, -5])
     kw = {}
     bounds = self.bounds
-    if bounds == 'mixed':  # explicit (1/1000, 1000) as in the specification, or the library defaults (1e-6, 1e6)
-      bounds = (Fraction(1, 1000), Fraction(1000)) if r.random() < 0.5 else None
+    if bounds == 'mixed':  # explicit (1/100, 100) as in the specification, or the library defaults (1e-6, 1e6)
+      bounds = (Fraction(1, 100), Fraction(100)) if r.random() < 0.5 else None
     if bounds is not None:
       kw = {'std_min_value': float(bounds[0] * scale), 'std_max_value': float(bounds[1] * scale)}
       lo, hi = bounds[0] * scale, bounds[1] * scale
@@ -303,7 +303,7 @@ def run(ctx):
       ('c18-exh', {'F': 1, 'Xs': '<- XsSmall', 'Ws': '<- WsAll', 'MaxBatch': 2, 'MaxUpdates': 2, 'NPick': 0,
                    'StdMin': '<- RHalf', 'StdMax': '<- RThreeHalves'}, half, 1500 if q else 0),
       ('c18-deep', {'F': 2, 'Xs': '<- XsWide', 'Ws': '<- WsWide', 'MaxBatch': 3 if q else 4, 'MaxUpdates': 3 if q else 4,
-                    'NPick': 2, 'StdMin': '<- RMilli', 'StdMax': '<- RKilo'}, 'mixed', 400 if q else 0),
+                    'NPick': 2, 'StdMin': '<- RCenti', 'StdMax': '<- RHecto'}, 'mixed', 400 if q else 0),
   ]
   for label, consts, bounds, limit in runs:
     dump = model(ctx, label, consts, ctx.seed + 3)
